@@ -298,10 +298,75 @@ static int run_small(int maxfaces, uint64_t seed, uint64_t stride) {
   return 0;
 }
 
+
+// fans: closed / open triangle fans around one vertex (plus a few extra triangles) with 2..3 per-corner attributes over 2 values and the
+// POSITION attribute at a random place in the attribute list: the seam configurations that point counting and point creation depend on
+static int run_fans(uint64_t seed, long n) {
+  vrt::Rng r(seed);
+  for (long i = 0; i < n; ++i) {
+    const int k = r.range(3, 7);
+    const bool closed = r.coin(2, 3);
+    std::vector<int> pos;
+    for (int t = 0; t < (closed ? k : k - 1); ++t) { pos.push_back(0); pos.push_back(1 + t); pos.push_back(1 + (t + 1) % k); }
+    const int extra_tris = r.range(0, 2);
+    for (int t = 0; t < extra_tris; ++t) { const int a = r.range(1, k), b = r.range(1, k + 2), c = r.range(0, k + 2); pos.push_back(a); pos.push_back(b); pos.push_back(c); }
+    if (r.coin(1, 4)) { const int rot = r.range(1, 2); for (size_t f = 0; f + 2 < pos.size(); f += 3) std::rotate(pos.begin() + f, pos.begin() + f + rot, pos.begin() + f + 3); }
+    const int nextra = r.range(1, 3);
+    std::vector<std::vector<int>> extra(nextra, std::vector<int>(pos.size()));
+    for (auto &e : extra) {
+      const int style = r.range(0, 2);
+      for (size_t c = 0; c < pos.size(); ++c) e[c] = style == 0 ? r.range(0, 1) : style == 1 ? (int)((c / 3) % 2) : (r.coin(1, 5) ? 1 : 0);
+    }
+    Geom g = corner_mesh(pos, extra, k + 3, 2, r.range(0, nextra));
+    g.shape = closed ? "fan-closed" : "fan-open";
+    Opt o;
+    o.method = r.coin(1, 6) ? 0 : 1;
+    o.es = o.ds = r.range(0, 10);
+    o.submethod = r.coin() ? -1 : (r.coin() ? 0 : 2);
+    o.expert = r.coin();
+    o.qbits.assign(g.pc->num_attributes(), 0);
+    run_case(g, o, true, 120);
+  }
+  fprintf(stderr, "STATS cases=%lld emitted=%lld encfail=%lld\n", n_cases, n_emit, n_enc_fail);
+  return 0;
+}
+
+// sizes: point / face counts at the boundaries where the sequential coders switch index widths (2^8, 2^16) and nearby
+static int run_sizes(uint64_t seed) {
+  vrt::Rng r(seed);
+  for (int np : {255, 256, 257, 65535, 65536, 65537}) {
+    for (int mesh = 0; mesh < 2; ++mesh) {
+      for (int method = 0; method < 2; ++method) {
+        if (np > 1000 && method == 1 && !mesh) continue;
+        Geom g;
+        g.is_mesh = mesh;
+        g.pc.reset(mesh ? new Mesh() : new PointCloud());
+        g.pc->set_num_points(np);
+        AttDesc p{GeometryAttribute::POSITION, DT_INT32, 3, false, true, np};
+        const int pid = add_attribute(g.pc.get(), p, np);
+        for (int i = 0; i < np; ++i) { int32_t xyz[3] = {i % 300, (i / 300) % 300, i / 90000}; g.pc->attribute(pid)->SetAttributeValue(AttributeValueIndex(i), xyz); }
+        if (mesh) {
+          // a strip that uses every point, in particular the last one
+          for (int i = 0; i + 2 < np; i += (np > 1000 ? 2 : 1)) { Mesh::Face f; f[0] = PointIndex(i); f[1] = PointIndex(i + 1); f[2] = PointIndex(i + 2); g.mesh()->AddFace(f); }
+          Mesh::Face f; f[0] = PointIndex(np - 1); f[1] = PointIndex(0); f[2] = PointIndex(np / 2); g.mesh()->AddFace(f);
+        }
+        g.shape = "size-boundary";
+        Opt o;
+        o.method = method; o.es = o.ds = r.range(3, 7); o.qbits.assign(1, 0);
+        run_case(g, o, true, 120);
+      }
+    }
+  }
+  fprintf(stderr, "STATS cases=%lld emitted=%lld encfail=%lld\n", n_cases, n_emit, n_enc_fail);
+  return 0;
+}
+
 int main(int argc, char **argv) {
   bool nodedup = false, intnormals = false, big = false;
   for (int i = 1; i < argc; ++i) { if (!strcmp(argv[i], "nodedup")) nodedup = true; if (!strcmp(argv[i], "intnormals")) intnormals = true; if (!strcmp(argv[i], "big")) big = true; }
   if (argc >= 4 && !strcmp(argv[1], "random")) return run_random(strtoull(argv[2], 0, 10), atol(argv[3]), nodedup, intnormals, big);
+  if (argc >= 4 && !strcmp(argv[1], "fans")) return run_fans(strtoull(argv[2], 0, 10), atol(argv[3]));
+  if (argc >= 3 && !strcmp(argv[1], "sizes")) return run_sizes(strtoull(argv[2], 0, 10));
   if (argc >= 5 && !strcmp(argv[1], "small")) return run_small(atoi(argv[2]), strtoull(argv[3], 0, 10), strtoull(argv[4], 0, 10));
   fprintf(stderr, "usage: drv_rt random <seed> <n> [nodedup] [intnormals] [big] | small <maxfaces> <seed> <stride>\n");
   return 2;
